@@ -15,7 +15,10 @@ namespace vf {
 
 // ---------------------------------------------------------------- stamps
 inline std::atomic<uint64_t> g_stamp{1}; // NOLINT
+// every API call of the harnesses takes stamps, so the stamp counter doubles as the progress indicator
+// watched by the stall watchdog in main.cpp
 inline uint64_t stamp() { return g_stamp.fetch_add(1, std::memory_order_seq_cst); }
+inline std::atomic<uint64_t> g_progress{0}; // NOLINT : bumped by harness loops that take no stamps
 
 // ---------------------------------------------------------------- values
 // layout: [magic:4][len:4][id:8][keyhash:8][fill ...]; minimum 24 bytes.
@@ -234,6 +237,7 @@ public:
             int id = static_cast<int>(threads_.size());
             threads_.emplace_back([this, id] { worker(id); });
         }
+        g_progress.fetch_add(1, std::memory_order_relaxed);
         fn_ = &fn;
         seed_ = seed;
         n_active_.store(n);
